@@ -5,13 +5,18 @@
   succeeds and `from_cbor_value` of *that* gives the same result (so a further encode gives the same value again).
   (2) Byte level: the emitted value goes through the serializer and the parser; that is the identity on values the serializer can
   represent faithfully (`Normal`: lengths below 2^64, valid UTF-8, no bignum tag over a short byte string, nesting ≤ 256).
-  The exception is real — `small_bignum_not_fixed` below is the known finding D3.
+  (3) Byte level without a condition on the emitted value (`bytes_fixed`, `tagged_bytes_fixed` and their instances): what the parser
+  returns is `Normal` and within the recursion budget (L6, L7) unless it holds a bignum tag over a short byte string in a form other
+  than the canonical one — which can only come from the indefinite-length encoding — and what a decoded structure re-emits is no
+  less well-behaved than the wire value (`TameConv`).  So the only hypothesis left is `NoSB` on the *parsed input*: exactly the
+  complement of the known finding D3, whose reality `small_bignum_not_fixed` proves.
 -/
 import CosetProofs.Roundtrip.Messages
 import CosetProofs.Roundtrip.Key
 import CosetProofs.Roundtrip.Claims
 import CosetProofs.Roundtrip.Context
 import CosetProofs.Cbor.Roundtrip
+import CosetProofs.Roundtrip.TransferKeyClaims
 namespace Coset.Props.C07
 open Coset Coset.Cbor
 
@@ -127,6 +132,136 @@ theorem tagged_types :
     [Gen.TAG_CoseSign1, Gen.TAG_CoseSign, Gen.TAG_CoseMac0, Gen.TAG_CoseMac, Gen.TAG_CoseEncrypt0, Gen.TAG_CoseEncrypt] = [18, 98, 17, 97, 16, 96] :=
   ⟨sign1, sign, mac0, mac, encrypt0, encrypt, by decide⟩
 
+
+/-! ### layer 3: byte level, from the input alone -/
+
+/-- `from_slice` / `to_vec`: if `b` (a Rust slice: shorter than 2^63 bytes) decodes to `t` and the parsed item holds no short bignum tag
+    outside the canonical form, then `t` encodes to some `b'`, `b'` decodes to `t`, and whatever `b'` decodes to encodes to `b'` again. -/
+theorem bytes_fixed {α : Type} (conv : Value → Res α) (toV : α → Res Value) (hf : FixedPoint conv toV) (ht : TameConv conv toV)
+    (b : Bytes) (t : α) (hd : fromSlice conv b = .ok t) (hl : b.length < 2 ^ 63) (hs : ∀ v, readToValue b = .ok v → NoSB v) :
+    ∃ b', toVec toV t = .ok b' ∧ fromSlice conv b' = .ok t ∧ ∀ t', fromSlice conv b' = .ok t' → toVec toV t' = .ok b' := by
+  obtain ⟨x, h1, h2, h3⟩ := bytes_partial conv toV hf b t hd
+  simp only [fromSlice] at hd
+  cases hr : readToValue b with
+  | ok v =>
+    simp only [hr] at hd
+    obtain ⟨hn, hdp⟩ := readToValue_normal b v hr (by omega) (hs v hr)
+    have hz := readToValue_size b v hr
+    obtain ⟨y, hy, hyn, hyd⟩ := ht v t hd hn (by unfold sliceMax; omega)
+    rw [h2] at hy; cases hy
+    obtain ⟨h4, h5⟩ := h3 hyn (by omega)
+    exact ⟨enc x, h1, h4, h5⟩
+  | err e => simp [hr] at hd
+  | panic q => simp [hr] at hd
+
+theorem depth_inner_of_tag (t : Nat) (v : Value) (k : Nat) (h : depthOf (.tag t v) ≤ k) (hk : 1 ≤ k) : depthOf v + 1 ≤ k := by
+  simp only [depthOf] at h
+  split at h
+  · next hf => obtain ⟨_, b, rfl, _⟩ := (foldedTag_iff t v).mp hf; simp [depthOf]; omega
+  · exact h
+
+/-- the tagged forms (`from_tagged_slice` / `to_tagged_vec`) of the six message types (their tags are not the bignum tags 2 and 3). -/
+theorem tagged_bytes_fixed {α : Type} (tag : Nat) (htag : tag ≠ 2 ∧ tag ≠ 3) (conv : Value → Res α) (toV : α → Res Value)
+    (hf : FixedPoint conv toV) (ht : TameConv conv toV)
+    (b : Bytes) (t : α) (hd : fromTaggedSlice tag conv b = .ok t) (hl : b.length < 2 ^ 63) (hs : ∀ v, readToValue b = .ok v → NoSB v) :
+    ∃ b', toTaggedVec tag toV t = .ok b' ∧ fromTaggedSlice tag conv b' = .ok t ∧
+      ∀ t', fromTaggedSlice tag conv b' = .ok t' → toTaggedVec tag toV t' = .ok b' := by
+  obtain ⟨x, h1, h2, h3⟩ := tagged_bytes_partial tag conv toV hf b t hd
+  simp only [fromTaggedSlice] at hd
+  cases hr : readToValue b with
+  | ok v =>
+    simp only [hr] at hd
+    cases htg : tryAsTag v with
+    | ok ti =>
+      obtain ⟨tg, inner⟩ := ti
+      simp only [htg] at hd
+      by_cases hne : (tg != tag) = true
+      · simp [hne] at hd
+      · simp only [hne, Bool.false_eq_true, if_false] at hd
+        have htt : tg = tag := by simpa using hne
+        have hv := tryAsTag_ok v tg inner htg
+        subst hv
+        obtain ⟨hn, hdp⟩ := readToValue_normal b _ hr (by omega) (hs _ hr)
+        have hz := readToValue_size b _ hr
+        simp only [Normal] at hn
+        simp only [Value.size] at hz
+        obtain ⟨y, hy, hyn, hyd⟩ := ht inner t hd hn.2.2 (by unfold sliceMax; omega)
+        rw [h2] at hy; cases hy
+        have hdi := depth_inner_of_tag tg inner _ hdp (by unfold recursionLimit; omega)
+        have hnt : Normal (.tag tag x) := by
+          simp only [Normal]
+          refine ⟨by rw [← htt]; exact hn.1, ?_, hyn⟩
+          intro hsb; exact absurd hsb.1 (by omega)
+        have hdt : depthOf (.tag tag x) ≤ recursionLimit := by
+          have := depthOf_tag_le tag x; omega
+        obtain ⟨h4, h5⟩ := h3 hnt hdt
+        exact ⟨enc (.tag tag x), h1, h4, h5⟩
+    | err e => simp [htg] at hd
+    | panic q => simp [htg] at hd
+  | err e => simp [hr] at hd
+  | panic q => simp [hr] at hd
+
+/-- every type satisfies the premises of `bytes_fixed`. -/
+theorem all_types_tame :
+    TameConv hdrFromValue Header.toValue ∧ TameConv sigFromValue CoseSignature.toValue ∧
+    TameConv CoseSign1.fromValue CoseSign1.toValue ∧ TameConv CoseSign.fromValue CoseSign.toValue ∧
+    TameConv CoseMac0.fromValue CoseMac0.toValue ∧ TameConv CoseMac.fromValue CoseMac.toValue ∧
+    TameConv CoseEncrypt0.fromValue CoseEncrypt0.toValue ∧ TameConv CoseEncrypt.fromValue CoseEncrypt.toValue ∧
+    TameConv rcpFromValue CoseRecipient.toValue ∧ TameConv CoseKey.fromValue CoseKey.toValue ∧
+    TameConv CoseKeySet.fromValue CoseKeySet.toValue ∧ TameConv ClaimsSet.fromValue ClaimsSet.toValue ∧
+    TameConv PartyInfo.fromValue PartyInfo.toValue ∧ TameConv SuppPubInfo.fromValue SuppPubInfo.toValue ∧
+    TameConv CoseKdfContext.fromValue CoseKdfContext.toValue :=
+  ⟨hdr_tameConv, sig_tameConv, sign1_tame, sign_tame, mac0_tame, mac_tame, encrypt0_tame, encrypt_tame, rcp_tame, key_tame, keyset_tame,
+   claims_tame, party_tame, supp_tame, kdf_tame⟩
+
+/-- instances, written out for the types the property names first: a COSE_Sign1 (plain and tagged), a header, a key. -/
+theorem sign1_bytes (b : Bytes) (m : CoseSign1) (hd : fromSlice CoseSign1.fromValue b = .ok m) (hl : b.length < 2 ^ 63)
+    (hs : ∀ v, readToValue b = .ok v → NoSB v) :
+    ∃ b', toVec CoseSign1.toValue m = .ok b' ∧ fromSlice CoseSign1.fromValue b' = .ok m ∧
+      ∀ m', fromSlice CoseSign1.fromValue b' = .ok m' → toVec CoseSign1.toValue m' = .ok b' :=
+  bytes_fixed _ _ sign1 sign1_tame b m hd hl hs
+
+theorem sign1_tagged_bytes (b : Bytes) (m : CoseSign1) (hd : fromTaggedSlice Gen.TAG_CoseSign1 CoseSign1.fromValue b = .ok m)
+    (hl : b.length < 2 ^ 63) (hs : ∀ v, readToValue b = .ok v → NoSB v) :
+    ∃ b', toTaggedVec Gen.TAG_CoseSign1 CoseSign1.toValue m = .ok b' ∧ fromTaggedSlice Gen.TAG_CoseSign1 CoseSign1.fromValue b' = .ok m ∧
+      ∀ m', fromTaggedSlice Gen.TAG_CoseSign1 CoseSign1.fromValue b' = .ok m' → toTaggedVec Gen.TAG_CoseSign1 CoseSign1.toValue m' = .ok b' :=
+  tagged_bytes_fixed _ (by decide) _ _ sign1 sign1_tame b m hd hl hs
+
+theorem header_bytes (b : Bytes) (h : Header) (hd : fromSlice hdrFromValue b = .ok h) (hl : b.length < 2 ^ 63)
+    (hs : ∀ v, readToValue b = .ok v → NoSB v) :
+    ∃ b', toVec Header.toValue h = .ok b' ∧ fromSlice hdrFromValue b' = .ok h ∧
+      ∀ h', fromSlice hdrFromValue b' = .ok h' → toVec Header.toValue h' = .ok b' :=
+  bytes_fixed _ _ header hdr_tameConv b h hd hl hs
+
+theorem key_bytes (b : Bytes) (k : CoseKey) (hd : fromSlice CoseKey.fromValue b = .ok k) (hl : b.length < 2 ^ 63)
+    (hs : ∀ v, readToValue b = .ok v → NoSB v) :
+    ∃ b', toVec CoseKey.toValue k = .ok b' ∧ fromSlice CoseKey.fromValue b' = .ok k ∧
+      ∀ k', fromSlice CoseKey.fromValue b' = .ok k' → toVec CoseKey.toValue k' = .ok b' :=
+  bytes_fixed _ _ key key_tame b k hd hl hs
+
+/-- the tags of the six taggable types are not bignum tags (premise of `tagged_bytes_fixed`). -/
+theorem message_tags_not_bignum :
+    ∀ t ∈ [Gen.TAG_CoseSign1, Gen.TAG_CoseSign, Gen.TAG_CoseMac0, Gen.TAG_CoseMac, Gen.TAG_CoseEncrypt0, Gen.TAG_CoseEncrypt], t ≠ 2 ∧ t ≠ 3 := by decide
+
+/-- `impl CborSerializable for Value` itself. -/
+theorem value_bytes (b : Bytes) (v : Value) (h : readToValue b = .ok v) (hl : b.length < 2 ^ 63) (hs : NoSB v) : readToValue (enc v) = .ok v :=
+  readToValue_enc_of_parsed b v h (by omega) hs
+
+/-- non-vacuity of `NoSB`: the parsed form of an ordinary non-canonical input satisfies it, and the D3 input does not. -/
+example : (match readToValue [0xbf, 0x04, 0x41, 0x01, 0x01, 0x18, 0x05, 0xff] with
+    | .ok (.map [(.int 4, .bytes [1]), (.int 1, .int 5)]) => true | _ => false) = true := by decide +kernel
+example : NoSB (.map [(.int 4, .bytes [1]), (.int 1, .int 5)]) := by simp [NoSB, NoSBP]
+example : ¬ NoSB (.tag 2 (.bytes [1])) := by
+  intro h
+  simp only [NoSB] at h
+  obtain ⟨raw, h64, h2, _, he⟩ := h.1 ⟨Or.inl rfl, [1], rfl, by simp⟩
+  have hr := h2 rfl
+  have hm : minBytes raw = [1] := by injection he with he; exact he.symm
+  have h1 := beVal_minBytes raw hr
+  rw [hm] at h1
+  have h0 : beVal [1] = 1 := rfl
+  omega
+
 /-! ### the exception is real (known finding D3) -/
 
 /-- is the first extra parameter's value a tag? -/
@@ -178,5 +313,14 @@ example : (fromSlice hdrFromValue [0xbf, 0x04, 0x41, 0x01, 0x01, 0x18, 0x05, 0xf
 #print axioms tagged_bytes_partial
 #print axioms tagged_types
 #print axioms small_bignum_not_fixed
+#print axioms bytes_fixed
+#print axioms tagged_bytes_fixed
+#print axioms all_types_tame
+#print axioms sign1_bytes
+#print axioms sign1_tagged_bytes
+#print axioms header_bytes
+#print axioms key_bytes
+#print axioms message_tags_not_bignum
+#print axioms value_bytes
 
 end Coset.Props.C07
